@@ -56,7 +56,7 @@ def column(node, col, root_spelling=".", tz="UTC"):
     if col == "line_count":
         return str(node["facts"]["nl"]) if "nl" in node["facts"] else ""
     if col == "modified":
-        t = node["mtime"] + fstree.TZ_OFFSETS[tz]
+        t = node["mtime"] + fstree.tz_off(tz, node["mtime"])
         return (datetime.datetime(1970, 1, 1) + datetime.timedelta(seconds=t)).strftime("%Y-%m-%d %H:%M:%S")
     b = bool_column(node, col)
     if b is not None:
@@ -186,7 +186,7 @@ def holds(node, col, kind, op, lit, tz="UTC", root_spelling="."):
         if iv is None:
             return None
         a, b = iv
-        t = node["mtime"] + fstree.TZ_OFFSETS[tz]
+        t = node["mtime"] + fstree.tz_off(tz, node["mtime"])
         return {"eq": a <= t <= b, "ne": not (a <= t <= b), "lt": t < a, "gt": t > b, "lte": t <= b, "gte": t >= a,
                 "eeq": t == a, "ene": t != a}.get(op)
     return None
